@@ -14,11 +14,11 @@ VARIABLES l, st, skipping, fails, cs
 U == INSTANCE ClientURL WITH Variant <- "fixed"
 
 Req(r) == [media |-> r.media, method |-> r.method, presetct |-> r.presetct, payload |-> r.payload.kind,
-           fields |-> r.fields, files |-> r.files, auth |-> r.auth, k |-> r.k,
+           fields |-> r.fields, files |-> r.files, auth |-> r.auth, defauth |-> r.defauth, k |-> r.k,
            fault |-> r.payload.fail, debug |-> r.debug]
 BInit(e) == [reqs |-> [i \in 1..Len(e.reqs) |-> Req(e.reqs[i])]]
 
-Ids(e) == [payload |-> e.supplied.payload, files |-> e.supplied.files]
+Ids(e) == [payload |-> e.supplied.payload, ref |-> e.supplied.ref, files |-> e.supplied.files]
 
 RawOK(e) == e.kind = "multipart" \/ U!RawQueryValid(e.raw)
 Pairs(e) == IF e.kind = "multipart" THEN e.pairs ELSE U!DecodedPairs(e.raw)
@@ -31,7 +31,8 @@ BAllowed(s, e) ==
                         \/ /\ ~e.err                                        \* ... a call that succeeds satisfies C11 in full
                            /\ RawOK(e)
                            /\ BodyOK(s.reqs[e.req], Ids(e), Obs(e))
-                           /\ AuthOK(s.reqs[e.req], e.auth_saw, e.body_sha)
+                           /\ PlacementOK(s.reqs[e.req], e.auth_saw, e.def_saw)
+                           /\ AuthOK(s.reqs[e.req], InForceSaw(s.reqs[e.req], e.auth_saw, e.def_saw), e.body_sha)
     [] OTHER -> FALSE
 
 BWhy(s, e) ==
